@@ -10,8 +10,8 @@ from engine import Check
 from adapter import SARGS
 
 NARGS = len(SARGS)
-KEYCLS_DEFAULT = [0, 1, 1, 1, 2, 3, 4, 4, 5, 6, 7]
-KEYCLS_CUSTOM = [0, 1, 1, 1, 1, 1, 2, 2, 2, 1, 1]
+KEYCLS_DEFAULT = [0, 1, 1, 1, 2, 3, 4, 4, 5, 6, 7, 8, 8]
+KEYCLS_CUSTOM = [0, 1, 1, 1, 1, 1, 2, 2, 2, 1, 1, 1, 1]
 MAPOF = [0, 0, 0, 1, 2, 2]
 
 
@@ -36,6 +36,8 @@ def ss_ops(ninst):
             yield "sscheck C%d A%d" % (c, a)
         yield "ssall C%d" % c
         yield "ssclear C%d" % c
+        for d in (0, 1, 2, 4, 5):
+            yield "ssalli C%d C%d A%d" % (c, d, (c + 2 * d) % 9)
     for i in range(ninst):
         for a in range(NARGS):
             yield "ssadd S%d A%d" % (i, a)
@@ -169,7 +171,7 @@ class C17(Check):
     def pre(self, real, line):
         # answers of every OTHER class before the op (isolation)
         t = line.split()
-        if t[0] in ("ssnew", "ssdrop", "ssclear", "ssadd") :
+        if t[0] in ("ssnew", "ssdrop", "ssclear", "ssadd", "ssalli"):
             from edgegraph.structure import singleton
             snap = {}
             for c, cls in enumerate(real.SS):
@@ -183,6 +185,16 @@ class C17(Check):
         op = t[0]
         if op == "ssobs":
             return None
+        if op == "ssalli":
+            if not out.startswith("ok ["):
+                return "%s answered %s" % (line, out)
+            c = int(t[1][1:])
+            body, newtok = out[4:].rsplit("] ", 1)
+            want = [o for k, o in self.live.items() if k[0] == c]
+            got = [real.S[int(z[1:])] for z in body.split(",") if z]
+            if sorted(map(id, got)) != sorted(map(id, want)):
+                return "%s: consumed incrementally, get_all reported %d instances, live mappings were %d" % (line, len(got), len(want))
+            return self.oracle(real, "ssnew C%s A%s" % (t[2][1:], t[3][1:]), "ok " + newtok, pre)
         if op == "ssnew":
             c, a = int(t[1][1:]), int(t[2][1:])
             k = self.key(c, a)
